@@ -87,7 +87,7 @@ CHECKS = {
     "C07": dict(
         technique="no-panic/no-abort/progress monitor over grammar-based boundary-value fuzzing in worker subprocesses (chk build: overflow checks and debug assertions on in every crate), heartbeat supervisor, iteration-bound hooks on the dash loops; AddressSanitizer build in the thorough tier",
         text="Generated call sequences over the whole public API with boundary-biased values inside the stated domain run in worker subprocesses under catch_unwind; a panic, a dead worker (abort/OOM), an iteration-bound overrun or a case that finishes in neither of two isolated re-runs is a violation. Held on the sequences run; two known findings in the dependency sw-composite (non-separable blend modes) are reported as KNOWN-FINDING by exact signature.",
-        note="Domain decisions where the statement is silent are listed in the evidence (assumptions): transform scales 1e-4..1e4 or singular, increasing gradient stop positions, valid premultiplied inputs, <= 5000 dashes in routine cases, surfaces <= 64 px.",
+        note="Domain decisions where the statement is silent are listed in the evidence (assumptions): transform scales 1e-4..1e4 or singular, increasing gradient stop positions, valid premultiplied inputs, <= 5000 dashes in routine cases, surfaces <= 64 px; text calls within FreeType's domain (size 1..1000, 1..300 device px, axes within 16x of each other).",
         ref="DESIGN.md section 3, C07",
     ),
     "C10": dict(
@@ -99,7 +99,7 @@ CHECKS = {
     "C11": dict(
         technique="exact differentials: pre-transformed path vs transform on the target; identity vs T for device-space calls; singular-T no-op monitor; transform-preservation monitor",
         text="fill under T vs fill of Path::transform(T) under the identity must be bit-identical (all op kinds, AA modes, under clips and in layers); singular T must leave every pixel unchanged for fill/stroke/fill_rect/draw_image; push_clip_rect, mask(solid), copy_surface, blend_surface* must not depend on T; clear/pop_layer must leave get_transform() bitwise unchanged. Sources and strokes under T are judged by the C12/C13/C04 oracles, which draw random transforms. Held on what was run.",
-        note="mask() with a solid source under a singular transform is not asserted (the statement is silent on which clause wins). The C13/C12 oracles are also run from this check under a current transform in every case (well-conditioned matrices) and count for C11.",
+        note="mask() with a solid source under a singular transform is not asserted (the statement is silent on which clause wins). The C13/C12 oracles are also run from this check under a current transform in every case (well-conditioned matrices) and count for C11. Power-of-two user-space scalings must give bit-identical pictures (solid, linear, radial and image sources); text under a scale is compared with the same text at the scaled size by ink and centre of gravity.",
         ref="DESIGN.md section 3, C11",
     ),
     "C12": dict(
